@@ -115,7 +115,7 @@ def shards(tier):
         out.append({'mode': 'enumerate', 'maxlen': 2 if quick else 3, 'part': part, 'parts': parts})
     for mode in ('literal', 'assertion_free', 'direct'):
         for _ in range(4 if quick else 12):
-            out.append({'mode': mode, 'examples': 400 if quick else 3000})
+            out.append({'mode': mode, 'examples': 1200 if quick else 8000})
     return out
 
 
